@@ -167,32 +167,44 @@ def bound_family(rel, cls):
         body = body[1:]
     if len(body) != 2 or not isinstance(body[0], ast.If) or not same(body[1], 'return value'):
         bad(f'{cls}.validate: not `if ...: reject elif ...: reject` followed by `return value`')
+    def as_flag(n):
+        if self_attr(n, '_include_boundary'):
+            return True
+        if isinstance(n, ast.UnaryOp) and isinstance(n.op, ast.Not) and self_attr(n.operand, '_include_boundary'):
+            return False
+        return None
+
+    def as_cmp(n):
+        """[not] value <op> self._value  (or mirrored) -> (op, negated)"""
+        neg = False
+        if isinstance(n, ast.UnaryOp) and isinstance(n.op, ast.Not):
+            neg, n = True, n.operand
+        if not (isinstance(n, ast.Compare) and len(n.ops) == 1 and type(n.ops[0]) in CMP):
+            return None
+        op = CMP[type(n.ops[0])]
+        if is_name(n.left, 'value') and self_attr(n.comparators[0], '_value'):
+            return op, neg
+        if self_attr(n.left, '_value') and is_name(n.comparators[0], 'value'):
+            return FLIP[op], neg
+        return None
+
     tests = []
     node = body[0]
     while True:
         only_reject(node.body, cls)
         t = node.test
         if not (isinstance(t, ast.BoolOp) and isinstance(t.op, ast.And) and len(t.values) == 2):
-            bad(f'{cls}.validate: test is not `<comparison> and <flag>`')
-        cmp_, flag = t.values
-        if not isinstance(cmp_, ast.Compare):
-            bad(f'{cls}.validate: the comparison must come first (it is evaluated first and may raise)')
-        if len(cmp_.ops) != 1 or type(cmp_.ops[0]) not in CMP:
-            bad(f'{cls}.validate: unsupported comparison')
-        op = CMP[type(cmp_.ops[0])]
-        if is_name(cmp_.left, 'value') and self_attr(cmp_.comparators[0], '_value'):
-            pass
-        elif self_attr(cmp_.left, '_value') and is_name(cmp_.comparators[0], 'value'):
-            op = FLIP[op]
+            bad(f'{cls}.validate: test is not a conjunction of a comparison and the flag')
+        a, b = t.values
+        # which operand comes first matters: `and` short-circuits and the comparison may raise (TypeError)
+        if as_cmp(a) is not None and as_flag(b) is not None:
+            (op, neg), pol, flag_first = as_cmp(a), as_flag(b), False
+        elif as_flag(a) is not None and as_cmp(b) is not None:
+            (op, neg), pol, flag_first = as_cmp(b), as_flag(a), True
         else:
-            bad(f'{cls}.validate: comparison is not between value and self._value')
-        if self_attr(flag, '_include_boundary'):
-            pol = True
-        elif isinstance(flag, ast.UnaryOp) and isinstance(flag.op, ast.Not) and self_attr(flag.operand, '_include_boundary'):
-            pol = False
-        else:
-            bad(f'{cls}.validate: flag is not [not] self._include_boundary')
-        tests.append(f'({op}, {coq_bool(pol)})')
+            bad(f'{cls}.validate: test is not `[not] value <op> self._value and [not] self._include_boundary` (either order)')
+        tests.append('{| bt_op := %s; bt_neg := %s; bt_pol := %s; bt_flag_first := %s |}'
+                     % (op, coq_bool(neg), coq_bool(pol), coq_bool(flag_first)))
         if not node.orelse:
             break
         if len(node.orelse) != 1 or not isinstance(node.orelse[0], ast.If):
@@ -366,13 +378,23 @@ def is_enum():
     init_of(c, 'IsEnum', ['enum', 'convert', 'to_upper_case'], ['True', 'True'],
             ['self._enum = enum', 'self._convert = convert', 'self._to_upper_case = to_upper_case'])
     body = strip_doc(v.body)
+    plain = ('if issubclass(self._enum, IntEnum):\n    enum_value = self._enum(int(value))\n'
+             'else:\n    enum_value = self._enum(value)')
+    guarded = ('if issubclass(self._enum, IntEnum):\n'
+               '    if isinstance(value, float) and not value.is_integer():\n        raise ValueError(value)\n'
+               '    enum_value = self._enum(int(value))\n'
+               'else:\n    enum_value = self._enum(value)')
     if len(body) != 3 or not isinstance(body[0], ast.Try) or len(body[0].body) != 2 \
             or not same(body[0].body[0], 'if isinstance(value, str) and self._to_upper_case:\n    value = value.upper()') \
-            or not same(body[0].body[1], 'if issubclass(self._enum, IntEnum):\n    enum_value = self._enum(int(value))\n'
-                                         'else:\n    enum_value = self._enum(value)') \
             or not same(body[1], 'if self._convert:\n    return enum_value') or not same(body[2], 'return value'):
         bad('IsEnum.validate: shape changed')
-    return provenance(rel, src, v), handler_table(body[0], 'IsEnum')
+    if same(body[0].body[1], plain):
+        guard = False
+    elif same(body[0].body[1], guarded):
+        guard = True       # a float that is no whole number raises ValueError before int() truncates it
+    else:
+        bad('IsEnum.validate: the IntEnum / Enum dispatch changed')
+    return provenance(rel, src, v), handler_table(body[0], 'IsEnum'), guard
 
 
 def iso_format():
@@ -497,8 +519,14 @@ def convert_value():
         bad('convert_value: top level shape changed')
     if not same(body[0], 'if isinstance(value, target_type):\n    return value'):
         bad('convert_value: the isinstance shortcut changed')
-    # normalisation chain: value = str(value).m1().m2()...
+    # normalisation chain: value = str(value).m1().m2()...   either bare or as the only statement of a try
     st = body[1]
+    h_norm = '[]'
+    if isinstance(st, ast.Try):
+        if len(st.body) != 1:
+            bad('convert_value: the try around the normalisation holds more than one statement')
+        h_norm = handler_table(st, 'convert_value/normalise')
+        st = st.body[0]
     if not (isinstance(st, ast.Assign) and len(st.targets) == 1 and is_name(st.targets[0], 'value')):
         bad('convert_value: second statement is not `value = ...`')
     ops = []
@@ -539,7 +567,7 @@ def convert_value():
               "for item in value.split(',')}")
     if not same(t.body[0], expect) or not same(t.body[1], 'return target_type(value)'):
         bad('convert_value: list/dict/constructor dispatch changed')
-    return provenance(rel, src, f), coq_list(ops), trues, falses, bool_else, handler_table(t, 'convert_value')
+    return provenance(rel, src, f), coq_list(ops), trues, falses, bool_else, handler_table(t, 'convert_value'), h_norm
 
 
 # ---------------------------------------------------------------------------------------------------------
@@ -722,7 +750,7 @@ def translate():
     for cls_, rel in (('Min', 'min.py'), ('Max', 'max.py')):
         p, tests, dom = bound_family(VDIR + rel, cls_)
         prov(cls_.lower(), p)
-        line(f'Definition {cls_.lower()}_tests : list (cmpop * bool) := {tests}.')
+        line(f'Definition {cls_.lower()}_tests : list btest := {tests}.')
         line(f'Definition {cls_.lower()}_dom : domkind := {dom}.')
     for cls_, rel, nm in (('MinLength', 'min_length.py', 'minlen'), ('MaxLength', 'max_length.py', 'maxlen')):
         p, dom, op = length_family(VDIR + rel, cls_)
@@ -741,9 +769,10 @@ def translate():
     p, h = is_uuid()
     prov('is_uuid', p)
     line(f'Definition h_is_uuid : htable := {h}.')
-    p, h = is_enum()
+    p, h, guard = is_enum()
     prov('is_enum', p)
     line(f'Definition h_is_enum : htable := {h}.')
+    line(f'Definition enum_float_guard : bool := {coq_bool(guard)}.')
     p, h = iso_format()
     prov('iso', p)
     line(f'Definition h_iso : htable := {h}.')
@@ -760,11 +789,12 @@ def translate():
     p, mode = match_pattern()
     prov('match_pattern', p)
     line(f'Definition matchpattern_mode : matchmode := {mode}.')
-    p, ops, trues, falses, bool_else, h = convert_value()
+    p, ops, trues, falses, bool_else, h, h_norm = convert_value()
     prov('convert_value', p)
     line(f'Definition cv_norm : list normop := {ops}.')
     line(f'Definition cv_true : list (list Z) := {trues}.')
     line(f'Definition cv_false : list (list Z) := {falses}.')
     line(f'Definition cv_bool_else : exn := {bool_else}.')
     line(f'Definition h_convert : htable := {h}.')
+    line(f'Definition h_convert_norm : htable := {h_norm}.')
     return {UNIT: out + '\n'.join(d) + '\n'}
